@@ -180,9 +180,38 @@ Proof.
   - split; [intros _ vt sh H; discriminate|reflexivity].
 Qed.
 
+(* ---- breaks: the generic backtracking assignment *)
+Lemma gassign_b_iff {X} (fits : fact -> X -> bool) : forall acts avail, gassign_b fits acts avail = true <-> GAssign fits acts avail.
+Proof.
+  induction acts as [|a r IH]; intros avail; cbn [gassign_b].
+  - split; [intros _; constructor|reflexivity].
+  - rewrite existsb_exists. split.
+    + intros [[p rest] [Hin Hb]]. cbn [fst snd] in Hb. apply andb_true_iff in Hb. destruct Hb as [Hf Hr].
+      apply picks_In in Hin. destruct Hin as [pre [post [-> ->]]]. constructor; [exact Hf|]. apply IH. exact Hr.
+    + intros H. inversion H as [|a' r' pre p post Hf Hr]; subst. exists (p, pre ++ post). split.
+      * apply picks_In. exists pre, post. split; reflexivity.
+      * cbn [fst snd]. rewrite Hf. cbn [andb]. apply IH. exact Hr.
+Qed.
+
+Lemma breaks_ok_iff P t : breaks_ok P t = true <-> BreaksDefined P t.
+Proof.
+  unfold breaks_ok, BreaksDefined. destruct (shift_of P t) as [[vt sh]|].
+  - rewrite gassign_b_iff. split.
+    + intros H vt' sh' Heq. injection Heq as <- <-. exact H.
+    + intros H. apply (H vt sh eq_refl).
+  - split; [intros _ vt sh H; discriminate|reflexivity].
+Qed.
+
+(* an assignment uses every break at most once and only fitting ones: the activities are matched injectively *)
+Lemma GAssign_length {X} (fits : fact -> X -> bool) acts avail : GAssign fits acts avail -> (length acts <= length avail)%nat.
+Proof.
+  intros H. induction H as [avail|a r pre p post Hf Hr IH]; cbn [length]; [lia|].
+  rewrite app_length in *. cbn [length]. lia.
+Qed.
+
 Definition TourOk (P : pproblem) (t : stour) : Prop :=
   TourNamesShift P t /\ job_acts t <> [] /\ (forall a, In a (flat_tour t) -> extra_kind (fa_kind a) = false)
-  /\ ReloadsDefined P t.
+  /\ ReloadsDefined P t /\ BreaksDefined P t.
 
 Lemma tour_viols_nil P l : forall k before,
   tour_viols P k before l = [] <->
@@ -196,17 +225,18 @@ Proof.
     { rewrite <- shift_of_some_iff. destruct (shift_of P t); split; intros H; try reflexivity; try discriminate; congruence. }
     assert (HB : (match job_acts t with [] => [ATourEmpty k] | _ => [] end) = [] <-> job_acts t <> []).
     { destruct (job_acts t); split; intros H; try reflexivity; try discriminate; congruence. }
-    rewrite HA, HB, !ifn_nil_iff, existsb_same_shift, if_nil_iff, reloads_ok_iff.
+    rewrite HA, HB, !ifn_nil_iff, existsb_same_shift, !if_nil_iff, reloads_ok_iff, breaks_ok_iff.
     rewrite (existsb_false_iff (fun a => extra_kind (fa_kind a)) (flat_tour t)).
     split.
-    + intros [H1 [H2 [H3 [H4 [HR [H5 [H6 H7]]]]]]]. split; [|split].
-      * intros t0 [<-|Ht0]; [split; [exact H1|split; [exact H2|split; [exact H4|exact HR]]]|apply H5; exact Ht0].
+    + intros [H1 [H2 [H3 [H4 [HR [HBk [H5 [H6 H7]]]]]]]]. split; [|split].
+      * intros t0 [<-|Ht0]; [split; [exact H1|split; [exact H2|split; [exact H4|split; [exact HR|exact HBk]]]]|apply H5; exact Ht0].
       * constructor; [|exact H6]. intros Hin. apply in_map_iff in Hin. destruct Hin as [b [Hk Hb]].
         apply (H7 b Hb). rewrite map_app, in_app_iff. right. left. symmetry. exact Hk.
       * intros t0 [<-|Ht0]; [exact H3|]. intros Hin. apply (H7 t0 Ht0). rewrite map_app, in_app_iff. left. exact Hin.
     + intros [H1 [H2 H3]]. inversion H2 as [|x xs Hnin Hnd]; subst.
-      destruct (H1 t (or_introl eq_refl)) as [Ha [Hb [Hc Hre]]].
+      destruct (H1 t (or_introl eq_refl)) as [Ha [Hb [Hc [Hre Hbk]]]].
       split; [exact Ha|]. split; [exact Hb|]. split; [apply H3; left; reflexivity|]. split; [exact Hc|]. split; [exact Hre|].
+      split; [exact Hbk|].
       split; [intros t0 Ht0; apply H1; right; exact Ht0|]. split; [exact Hnd|].
       intros t0 Ht0 Hin. rewrite map_app, in_app_iff in Hin. destruct Hin as [Hin|[Hin|[]]].
       * apply (H3 t0 (or_intror Ht0)). exact Hin.
@@ -227,10 +257,11 @@ Proof.
     + exact Hnd.
     + intros t a Hin. apply (Ht t Hin).
     + intros t Hin. apply (Ht t Hin).
-  - intros [Hj Hf1 Hf2 Hs Hv Hnd He Hre]. split; [|split; [split; [exact Hf1|exact Hf2]|split; [|split; [exact Hnd|]]]].
+    + intros t Hin. apply (Ht t Hin).
+  - intros [Hj Hf1 Hf2 Hs Hv Hnd He Hre Hbk]. split; [|split; [split; [exact Hf1|exact Hf2]|split; [|split; [exact Hnd|]]]].
     + intros job Hin. apply job_viol_nil. apply Hj. exact Hin.
     + intros t Hin. split; [apply Hs; exact Hin|]. split; [apply Hv; exact Hin|]. split; [intros a Ha; apply (He t a Hin Ha)|].
-      apply Hre. exact Hin.
+      split; [apply Hre; exact Hin|apply Hbk; exact Hin].
     + intros t _ [].
 Qed.
 
@@ -396,6 +427,52 @@ Proof.
     apply if_nil_iff. apply sorted_b_iff. apply (H n t r Hn Hr).
 Qed.
 
+(* break placement: the checker reports nothing iff every break activity uses a place of a break of its shift at that place's
+   location or, for a place without location, where the previous activity took place *)
+Lemma break_placed_iff sh dep prev a :
+  break_placed sh dep prev a = true <->
+  exists bk p, In bk (sh_breaks sh) /\ In p (break_places dep prev bk) /\ reload_fits a p = true.
+Proof.
+  unfold break_placed. rewrite existsb_exists. split.
+  - intros [bk [Hb He]]. apply existsb_exists in He. destruct He as [p [Hp Hf]]. exists bk, p. auto.
+  - intros [bk [p [Hb [Hp Hf]]]]. exists bk. split; [exact Hb|]. apply existsb_exists. exists p. auto.
+Qed.
+
+Lemma bplace_viol_nil sh dep k : forall l d i,
+  bplace_viol sh dep k i (fa_loc d) l = [] <->
+  (forall l1 a b l2, d :: l = l1 ++ a :: b :: l2 -> fa_kind b = 12 -> break_placed sh dep (fa_loc a) b = true).
+Proof.
+  induction l as [|x r IH]; intros d i; cbn [bplace_viol].
+  - split; [|reflexivity]. intros _ l1 a b l2 H. destruct l1 as [|y [|y' l1]]; discriminate.
+  - rewrite app_nil_iff, ifn_nil_iff, (IH x (i + 1)). split.
+    + intros [H1 H2] l1 a b l2 Heq Hk. destruct l1 as [|y l1]; cbn [app] in Heq.
+      * injection Heq as <- <- _. apply Z.eqb_eq in Hk. rewrite Hk in H1. cbn [andb] in H1.
+        apply negb_false_iff in H1. exact H1.
+      * injection Heq as _ Heq. eapply H2; eassumption.
+    + intros H. split.
+      * destruct (fa_kind x =? 12) eqn:Hk; [|reflexivity]. cbn [andb]. apply negb_false_iff.
+        apply (H [] d x r); [reflexivity|apply Z.eqb_eq; exact Hk].
+      * intros l1 a b l2 Heq Hk. apply (H (d :: l1) a b l2); [cbn [app]; rewrite Heq; reflexivity|exact Hk].
+Qed.
+
+Lemma break_place_viol_nil P k t : break_place_viol P k t = [] <-> BreaksPlaced P t.
+Proof.
+  unfold break_place_viol, BreaksPlaced. destruct (shift_of P t) as [[vt sh]|].
+  - destruct (flat_tour t) as [|d r] eqn:Hf.
+    + split; [|reflexivity]. intros _ vt' sh' l1 a b l2 _ H. destruct l1; discriminate.
+    + rewrite bplace_viol_nil. cbn [tour_dep]. split.
+      * intros H vt' sh' l1 a b l2 Heq Hl Hk. injection Heq as <- <-. apply break_placed_iff. eapply H; eassumption.
+      * intros H l1 a b l2 Hl Hk. apply break_placed_iff. eapply (H vt sh); [reflexivity|exact Hl|exact Hk].
+  - split; [|reflexivity]. intros _ vt sh l1 a b l2 H. discriminate.
+Qed.
+
+Lemma break_place_viols_nil P S : break_place_viols P S = [] <-> forall t, In t (sl_tours S) -> BreaksPlaced P t.
+Proof.
+  unfold break_place_viols. rewrite mapi_nil_iff. split.
+  - intros H t Ht. apply In_nth_error in Ht. destruct Ht as [n Hn]. apply (break_place_viol_nil P (Z.of_nat n)). apply H. exact Hn.
+  - intros H n t Hn. apply break_place_viol_nil. apply H. eapply nth_error_In. exact Hn.
+Qed.
+
 (* the three static rules together *)
 Lemma static_rules_nil P S :
   compat_viols P S ++ group_viols P S ++ reach_viols P S = [] <->
@@ -473,13 +550,25 @@ Proof. revert loc. induction acts as [|a r IH]; intros loc; cbn [legs_sum dist_f
 Lemma tour_legs_total_distance m t : tour_legs m t = total_distance m t.
 Proof. destruct t; cbn [tour_legs total_distance]; [reflexivity|]. apply legs_sum_dist_from. Qed.
 
+(* breaks in the replayed statistic: the service time of the activities is split into `serving` and `break`; a tour without
+   break activities has break = 0 and serving = the whole service time (what Model/Writer.v and its theorems are about) *)
+Lemma replay_stat_break_split P vt acts :
+  st_serve (replay_stat P vt acts) + st_break (replay_stat P vt acts) = replay_serving acts.
+Proof. unfold replay_stat. cbn [st_serve st_break]. lia. Qed.
+
+Lemma replay_break_none acts : forallb (fun a => negb (is_break_act a)) (tl acts) = true -> replay_break acts = 0.
+Proof.
+  unfold replay_break. generalize (tl acts). intros l. induction l as [|a r IH]; cbn [forallb filter]; [reflexivity|].
+  intros H. apply andb_true_iff in H. destruct H as [Ha Hr]. apply negb_true_iff in Ha. rewrite Ha. apply IH. exact Hr.
+Qed.
+
 (* ------------------------------------------------------------------ non-vacuity: a concrete problem and documents *)
 (* three locations on a line (10 apart); job 1 = delivery at location 1 (5 s service), job 2 = pickup at location 2 with a
    window that closes at 10; one vehicle, closed shift, fixed 7, distance price 1, time price 2 *)
 Definition ex_P : pproblem :=
   mkPProblem [mkPJob 1 [mkPTask 1 [mkPPlace 1 5 [(0, 100)] None] 1] true [] [] [] None None [] [];
               mkPJob 2 [mkPTask 0 [mkPPlace 2 0 [(0, 10)] None] 1] true [] [] [] None None [] []]
-             [mkPVType 1 [1] [mkPShift 0 0 INF (Some (0, 1000)) []] 10 7 1 2 [] None None None []]
+             [mkPVType 1 [1] [mkPShift 0 0 INF (Some (0, 1000)) [] []] 10 7 1 2 [] None None None []]
              3 [0; 10; 20; 10; 0; 10; 20; 10; 0] [0; 10; 20; 10; 0; 10; 20; 10; 0] [].
 Definition ex_stat : sstat := mkSStat 77 20 25 20 5 0 0.
 Definition ex_tour : stour :=
@@ -505,3 +594,33 @@ Proof.
 Qed.
 Lemma ex_cost_rejected : replay_viol ex_P ex_S_cost = [RStatCost 0].
 Proof. vm_compute. reflexivity. Qed.
+
+(* ---- breaks: ex_P whose shift defines one optional break, 5 s, no location, offset interval [10, 50] after the departure *)
+Definition ex_Pb : pproblem :=
+  mkPProblem (pr_jobs ex_P)
+             [mkPVType 1 [1] [mkPShift 0 0 INF (Some (0, 1000)) [] [mkPBreak [mkPPlace NOLOC 5 [(10, 50)] None] true]]
+                       10 7 1 2 [] None None None []]
+             3 (pr_dur ex_P) (pr_dist ex_P) [].
+(* job 1 is served 10..15 at location 1, the break is taken there 15..20, back at the depot at 30 *)
+Definition ex_stat_b : sstat := mkSStat 87 20 30 20 5 0 5.
+Definition ex_Sb : ssolution :=
+  mkSSolution ex_stat_b
+    [mkSTour 1 1 0 [mkSStop 0 0 0 1 0 [mkSAct (-1) 10 None None None];
+                    mkSStop 1 10 20 0 10 [mkSAct 1 1 (Some 1) (Some (10, 15)) None; mkSAct BREAK_JOB 12 (Some 1) (Some (15, 20)) None];
+                    mkSStop 0 30 30 0 20 [mkSAct (-1) 11 None None None]] ex_stat_b []]
+    [(2, 1%nat)].
+(* the same break taken at location 2 (a stop of its own): the place has no location, so it belongs where job 1 was served *)
+Definition ex_stat_bad : sstat := mkSStat 147 40 50 40 5 0 5.
+Definition ex_Sb_bad : ssolution :=
+  mkSSolution ex_stat_bad
+    [mkSTour 1 1 0 [mkSStop 0 0 0 1 0 [mkSAct (-1) 10 None None None];
+                    mkSStop 1 10 15 0 10 [mkSAct 1 1 None None None];
+                    mkSStop 2 25 30 0 20 [mkSAct BREAK_JOB 12 None None None];
+                    mkSStop 0 50 50 0 40 [mkSAct (-1) 11 None None None]] ex_stat_bad []]
+    [(2, 1%nat)].
+Lemma ex_break : valid_b ex_Pb ex_Sb = [] /\ In (FBreakPlace 0 2) (valid_b ex_Pb ex_Sb_bad).
+Proof. split; [vm_compute; reflexivity|]. vm_compute. repeat (first [left; reflexivity | right]). Qed.
+Lemma ex_break_stat : valid_b ex_Pb ex_Sb = [] /\ st_break (sl_stat ex_Sb) = 5.
+Proof. split; [exact (proj1 ex_break)|reflexivity]. Qed.
+Lemma ex_break_accounted : Accounted ex_Pb ex_Sb /\ break_acts (hd ex_tour (sl_tours ex_Sb)) <> [].
+Proof. split; [apply accounted_b_sound; vm_compute; reflexivity|vm_compute; discriminate]. Qed.
